@@ -116,7 +116,7 @@ impl Ids {
                     Ok(got) => return Err(fail("same_object_type", "object-type-differs", format!("object_type is {got:?}, the history says {t:?}"))),
                     Err(e) => return Err(fail("id_resolves", &format!("known-object-not-found:{t:?}"), format!("the replica contains the creating change of this {t:?} object but object_type failed: {e}"))),
                 }
-                let got = observe_obj(doc, id, None).map_err(|e| fail("subtree_reads", &format!("read-inconsistency:{}", sig_of_detail(&e.0)), e.0.clone()))?;
+                let got = observe_obj(doc, id, None).map_err(|e| fail("subtree_reads", &read_sig(&e.0), e.0.clone()))?;
                 let want = interp.object(&oref, t, 0);
                 if let Some(d) = tree_diff(&want, &got) {
                     return Err(fail("same_object", &format!("object-differs:{}", sig_of_detail(&d)), d));
